@@ -615,6 +615,15 @@ func cmdC16(prop, tier string, seed int64, out, statsOut, replay string) {
 			emitStrictCase(w, fmt.Sprintf("legacy-key-%d-%d", ki, pos), doc, st, "a key of the v1 format")
 		}
 	}
+	// an override block may hold any overridable setting, another format's own block included (the schema says so: the
+	// parser must agree)
+	for fi, f := range []string{"deb", "rpm", "apk", "ipk", "archlinux"} {
+		for gi, g := range []struct{ block, body string }{{"rpm", "group: Development"}, {"deb", "breaks: [old-thing]"}, {"apk", "signature:\n          key_name: k"},
+			{"ipk", "tags: [t]"}, {"archlinux", "packager: P <p@example.com>"}} {
+			doc := fmt.Sprintf("name: foreign\narch: amd64\nversion: 1.0.0\noverrides:\n  %s:\n    depends: [d]\n    %s:\n      %s\n", f, g.block, g.body)
+			emitStrictCase(w, fmt.Sprintf("foreign-override-%d-%d", fi, gi), doc, st, "another format's block inside an override block")
+		}
+	}
 	// generated configurations, each valid, and each with one random injection
 	g := &pkgGen{rng: rng}
 	n := 80
